@@ -68,23 +68,31 @@ func H_C06_alg_Q() {
 	}
 }
 
-func claimable(e *env.Env, p Pos) math.LegacyDec {
+// entitlement of a position: (validator index - position index) * token value, per the
+// reward formula, as an exact decimal (the payout is its floor).
+func entitlement(e *env.Env, p Pos) math.LegacyDec {
 	del, found := e.K.GetDelegation(e.Ctx, Dels[p.D], Vals[p.V], Denoms[p.A])
 	if !found {
 		return math.LegacyZeroDec()
 	}
-	asset, _ := e.K.GetAssetByDenom(e.Ctx, Denoms[p.A])
-	coins, _, err := e.K.CalculateDelegationRewards(e.Ctx, del, AV(e, Vals[p.V]), asset)
-	if err != nil {
+	info, _ := e.K.GetAllianceValidatorInfo(e.Ctx, Vals[p.V])
+	g, ok := types.NewRewardHistories(info.GlobalRewardHistory).GetIndexByDenom(env.BondDenom, Denoms[p.A])
+	if !ok {
 		return math.LegacyZeroDec()
 	}
-	return math.LegacyNewDecFromInt(coins.AmountOf(env.BondDenom))
+	d, ok := types.NewRewardHistories(del.RewardHistory).GetIndexByDenom(env.BondDenom, Denoms[p.A])
+	idx := g.Index
+	if ok {
+		idx = g.Index.Sub(d.Index)
+	}
+	return idx.Mul(posValue(e, p))
 }
 
-// c12: pool >= sum of what all positions could claim is preserved by the operation
+// c12: pool >= sum of the entitlements of all positions is preserved by the operation
 // (pending distribution rewards are settled first so that entitlements are comparable).
 func c12(id string, op Op, ps []Pos) {
-	st := Build(ps, Opts{Rewards: true, NVals: 2})
+	// quick tier: validator-share price 1 for the stake-moving operations (delegator-share prices symbolic)
+	st := Build(ps, Opts{Rewards: true, NVals: 2, StrictRewards: true, ValPriceOne: (op == OpDelegate || op == OpUndelegate || op == OpRedelegate) && !nd.Thorough()})
 	e := st.E
 	for v := 0; v < 2; v++ {
 		if Caught(func() { _, _ = e.K.ClaimValidatorRewards(e.Ctx, AV(e, Vals[v])) }) {
@@ -97,26 +105,48 @@ func c12(id string, op Op, ps []Pos) {
 	sum := func() math.LegacyDec {
 		s := math.LegacyZeroDec()
 		for _, p := range ps {
-			s = s.Add(claimable(e, p))
+			s = s.Add(entitlement(e, p))
 		}
-		if op == OpRedelegate {
-			s = s.Add(claimable(e, Pos{0, 1, 0}))
+		if op == OpRedelegate && !posIn(ps, 0, 1, 0) {
+			s = s.Add(entitlement(e, Pos{0, 1, 0}))
 		}
 		return s
 	}
 	nd.Assume(pool().GTE(sum())) // the invariant before the step
+	// region of a known finding: payouts are computed on the reported balance, i.e. the value
+	// rounded UP by the 0.01 epsilon, so a claim can pay more than the exact pro-rata entitlement
+	if del, found := e.K.GetDelegation(e.Ctx, Dels[0], Vals[0], Denoms[0]); found {
+		asset, _ := e.K.GetAssetByDenom(e.Ctx, Denoms[0])
+		if math.LegacyNewDecFromInt(types.GetDelegationTokens(del, AV(e, Vals[0]), asset).Amount).GT(posValue(e, Pos{0, 0, 0})) {
+			nd.Tag("balance-rounded-up")
+		}
+	}
+	preVal := posValue(e, Pos{0, 0, 0})
+	nd.ObserveDec("pre.sum", sum())
+	nd.ObserveDec("pre.pool", pool())
+	nd.ObserveDec("pre.val0", preVal)
 	if !RunOp(st, op, id, false) {
 		return
 	}
+	if op == OpUndelegate || op == OpRedelegate {
+		// region of a known finding: the actor's sub-token remainder is cleared as dust and its value
+		// passes to the co-delegators of the validator, whose accrued entitlements grow with it
+		amt := nd.IntRange("amt", "1", Pow30)
+		if _, found := e.K.GetDelegation(e.Ctx, Dels[0], Vals[0], Denoms[0]); !found && preVal.GT(math.LegacyNewDecFromInt(amt)) {
+			nd.Tag("dust-cleared-remainder")
+		}
+	}
 	nd.Reach(id)
+	nd.ObserveDec("post.sum", sum())
+	nd.ObserveDec("post.pool", pool())
 	nd.Assert(id, nd.LeqDec(sum(), pool(), math.LegacyNewDec(int64(len(ps)+2))))
 }
 
 func H_C12_step_claim_Q()      { c12("C12.step.claim", OpClaim, []Pos{{0, 0, 0}, {1, 0, 0}, {1, 1, 0}}) }
-func H_C12_step_delegate_Q()   { c12("C12.step.delegate", OpDelegate, []Pos{{0, 0, 0}, {1, 0, 0}, {1, 1, 0}}) }
-func H_C12_step_undelegate_Q() { c12("C12.step.undelegate", OpUndelegate, []Pos{{0, 0, 0}, {1, 0, 0}, {1, 1, 0}}) }
+func H_C12_step_delegate_Q()   { c12("C12.step.delegate", OpDelegate, []Pos{{0, 0, 0}, {1, 0, 0}}) }
+func H_C12_step_undelegate_Q() { c12("C12.step.undelegate", OpUndelegate, []Pos{{0, 0, 0}, {1, 0, 0}}) }
 func H_C12_step_redelegate_Q() {
-	c12("C12.step.redelegate", OpRedelegate, []Pos{{0, 0, 0}, {0, 1, 0}, {1, 1, 0}})
+	c12("C12.step.redelegate", OpRedelegate, []Pos{{0, 0, 0}, {1, 0, 0}, {0, 1, 0}})
 }
 func H_C12_step_slash_Q() {
 	nd.Tag("slash-with-unclaimed-rewards")
@@ -200,7 +230,7 @@ func H_C13_prorata_Q() {
 // H_C05_exit_Q: Undelegate(reported balance) succeeds for every position with a positive balance.
 func H_C05_exit_Q() {
 	id := "C05.exit.ideal"
-	st := Build(shapeActor("shape"), Opts{})
+	st := Build(shapeActor("shape"), Opts{TinyTDS: true})
 	e := st.E
 	asset, _ := e.K.GetAssetByDenom(e.Ctx, Denoms[0])
 	del, _ := e.K.GetDelegation(e.Ctx, Dels[0], Vals[0], Denoms[0])
